@@ -127,6 +127,9 @@ def run_scenario(sc):
         simu.Solve()
         u1, v1, a1 = simu._Get_u_n(pt), simu._Get_v_n(pt), simu._Get_a_n(pt)
         rec["new"] = {"u": fl(u1), "v": fl(v1), "a": fl(a1)}
+        if sc.get("energy"):
+            Ke, _, Me, _ = simu.Get_K_C_M_F(pt)
+            rec["E_impl"] = float(simu.Calc_Energy(Me, v1) + simu.Calc_Energy(Ke, u1))
         if sc.get("newton"):
             K, C, M, _ = simu.Get_K_C_M_F(pt)
             rec["K"], rec["C"], rec["M"] = dense(K).tolist(), dense(C).tolist(), dense(M).tolist()
